@@ -91,6 +91,12 @@ class C28(EngineACheck):
                 out.probe("dryruns_completed")
                 if real.outcome[0] == "abort":
                     out.violate("C28.terminates", "real:" + real.outcome[1], {"history": hist})
+                elif (dry.outcome[0] == "e" and real.outcome[0] == "e"
+                      and sum(1 for t in getattr(prog, "tasks", [])
+                              if t.raises or t.options.get("executor") == "nope") >= 2):
+                    # several independent failure sources: which error wins is decided by the
+                    # schedule, and the two runs have different ones
+                    out.probe("both_fail_with_several_failure_sources")
                 elif refinterp.okey(real.outcome) != refinterp.okey(dry.outcome):
                     kind = "value" if dry.outcome[0] == "v" else "error"
                     out.violate("C28.predicts_real_run", f"{kind}-differs",
